@@ -40,22 +40,39 @@ type idsDriver struct {
 	svNow      []uint64 // supervoxel stored in every region (nil = unknown after a torn voxel operation)
 	maxPresent uint64   // largest label the driver knows to be present
 	nHigh      int
+	// a second repo on the same server (growth): its own labelmap instance `name`, its own mutation
+	// ids (`rk` = the "repo" field of its events); its events go into the trace of `sink`
+	name string
+	rk   string
+	sink *idsDriver
 }
 
-func (d *idsDriver) ev(e idEvent) { d.events = append(d.events, e) }
+func (d *idsDriver) ev(e idEvent) {
+	if d.sink != nil {
+		d.sink.ev(e)
+		return
+	}
+	d.events = append(d.events, e)
+}
 
 func (d *idsDriver) start(cfg node.Config) {
 	d.n = d.c.StartNode(cfg)
-	r, err := d.n.HTTP("POST", "/api/repos", []byte(`{"alias":"ids"}`))
+	d.name, d.rk = "seg", "r"
+	d.open()
+}
+
+// open creates the repo and the labelmap instance of the driver on its node.
+func (d *idsDriver) open() {
+	r, err := d.n.HTTP("POST", "/api/repos", []byte(`{"alias":"ids`+d.rk+`"}`))
 	must(err, "newrepo")
 	var o struct{ Root string }
 	json.Unmarshal(r.Bytes(), &o)
 	d.root, d.cur = o.Root, o.Root
 	d.recordVersions()
 	g := lmm.SafeGeom(d.c.Seed, false) // (NewGeom panics for a few seeds, e.g. 3 and 6)
-	d.in = &lmm.Inst{N: d.n, G: g, Name: "seg", Root: o.Root}
+	d.in = &lmm.Inst{N: d.n, G: g, Name: d.name, Root: o.Root}
 	must(d.in.Create(nil), "create labelmap")
-	d.recordInstance("seg")
+	d.recordInstance(d.name)
 	d.sv = make([]uint64, g.R)
 	for i := range d.sv {
 		// five supervoxels: 11..14 hold one region each (they are cleaved off and merged back by
@@ -71,7 +88,7 @@ func (d *idsDriver) start(cfg node.Config) {
 	}
 	must(d.in.Ingest(d.cur, d.sv, blocks, false), "ingest")
 	must(d.n.Idle(), "idle")
-	d.ev(idEvent{"ev": "ingest", "inst": "seg", "max": 14})
+	d.ev(idEvent{"ev": "ingest", "inst": d.name, "max": 14})
 	d.svNow = append([]uint64(nil), d.sv...)
 	d.maxPresent = 14
 	// one body holding all supervoxels, so that cleaves are always possible
@@ -90,7 +107,11 @@ func (d *idsDriver) recordVersions() {
 	}
 	json.Unmarshal(r.Bytes(), &ri)
 	seen := map[int]bool{}
-	for _, e := range d.events {
+	all := d.events
+	if d.sink != nil {
+		all = d.sink.events
+	}
+	for _, e := range all {
 		if e["ev"] == "version" {
 			seen[e["id"].(int)] = true
 		}
@@ -112,7 +133,7 @@ func (d *idsDriver) recordInstance(name string) {
 
 // post sends a labelmap request at the open version and records the identifiers in the answer.
 func (d *idsDriver) post(kind, path string, body []byte) bool {
-	r, err := d.n.HTTP("POST", "/api/node/"+d.cur+"/seg"+path, body)
+	r, err := d.n.HTTP("POST", "/api/node/"+d.cur+"/"+d.name+path, body)
 	if err == node.ErrDead {
 		d.dead = true
 		return false
@@ -134,22 +155,22 @@ func (d *idsDriver) post(kind, path string, body []byte) bool {
 	}
 	json.Unmarshal(r.Bytes(), &o)
 	if o.MutationID != 0 {
-		d.ev(idEvent{"ev": "mut", "repo": "r", "id": o.MutationID})
+		d.ev(idEvent{"ev": "mut", "repo": d.rk, "id": o.MutationID})
 		d.muts++
 	}
 	if o.CleavedLabel != 0 {
-		d.ev(idEvent{"ev": "label", "inst": "seg", "id": o.CleavedLabel, "by": "cleave"})
+		d.ev(idEvent{"ev": "label", "inst": d.name, "id": o.CleavedLabel, "by": "cleave"})
 		d.cleaved = append(d.cleaved, o.CleavedLabel)
 		d.noteLabel(o.CleavedLabel)
 	}
 	if o.SplitSupervoxel != 0 {
-		d.ev(idEvent{"ev": "label", "inst": "seg", "id": o.SplitSupervoxel, "by": "split"})
-		d.ev(idEvent{"ev": "label", "inst": "seg", "id": o.RemainSupervoxel, "by": "remain"})
+		d.ev(idEvent{"ev": "label", "inst": d.name, "id": o.SplitSupervoxel, "by": "split"})
+		d.ev(idEvent{"ev": "label", "inst": d.name, "id": o.RemainSupervoxel, "by": "remain"})
 	}
 	if kind == "nextlabel" {
 		var n int
 		fmt.Sscanf(path, "/nextlabel/%d", &n)
-		d.ev(idEvent{"ev": "range", "inst": "seg", "start": o.Start, "end": o.End, "n": n})
+		d.ev(idEvent{"ev": "range", "inst": d.name, "start": o.Start, "end": o.End, "n": n})
 		d.noteLabel(o.End)
 	}
 	return true
@@ -248,7 +269,7 @@ func (d *idsDriver) ingestHigher(idle bool) bool {
 		return false
 	}
 	d.svNow = sv
-	d.ev(idEvent{"ev": "ingest", "inst": "seg", "max": h})
+	d.ev(idEvent{"ev": "ingest", "inst": d.name, "max": h})
 	d.noteLabel(h)
 	if idle {
 		if err := d.n.Idle(); err != nil {
@@ -317,7 +338,7 @@ func (d *idsDriver) splitSV() bool {
 // driver cannot know which writes of the interrupted request reached the store).
 func (d *idsDriver) observePresent() {
 	g := d.in.G
-	url := fmt.Sprintf("/api/node/%s/seg/raw/0_1_2/%d_%d_%d/%d_%d_%d?supervoxels=true", d.cur, g.Size[0], g.Size[1], g.Size[2], g.Min[0], g.Min[1], g.Min[2])
+	url := fmt.Sprintf("/api/node/%s/%s/raw/0_1_2/%d_%d_%d/%d_%d_%d?supervoxels=true", d.cur, d.name, g.Size[0], g.Size[1], g.Size[2], g.Min[0], g.Min[1], g.Min[2])
 	r, err := d.n.HTTP("GET", url, nil)
 	must(err, "read volume")
 	if r.Status != 200 {
@@ -330,7 +351,7 @@ func (d *idsDriver) observePresent() {
 			mx = l
 		}
 	}
-	d.ev(idEvent{"ev": "present", "inst": "seg", "max": mx})
+	d.ev(idEvent{"ev": "present", "inst": d.name, "max": mx})
 	d.noteLabel(mx)
 	if regs, bad := g.VolumeToRegions(vol); bad == "" {
 		d.svNow = regs
@@ -591,6 +612,17 @@ func checkC12(c *Ctx) int {
 	run.Set("label_counter_crash_points", len(lcps))
 	run.Set("label_counter_writes_in_history", lkinds)
 
+	// growth: client-chosen body labels, repositioned label counter, second repo, restarts straddling
+	// the stride writes, merge versions, random instance ids (c12_growth.go)
+	gstats := c12Growth(c, func(name string, evs []idEvent) {
+		mu.Lock()
+		results = append(results, result{name, evs})
+		mu.Unlock()
+	}, func(v map[string]interface{}) { run.Violation("c12", v) })
+	for k, v := range gstats {
+		run.Set(k, v)
+	}
+
 	// validate all traces in one TLC run (concatenated with reset events), then individually on rejection
 	var all []idEvent
 	nEvents := 0
@@ -634,8 +666,10 @@ func checkC12(c *Ctx) int {
 	run.Set("traces_validated_against_impl", len(results))
 	run.Set("identifier_events", nEvents)
 	run.Set("crash_points", len(cps)+len(lcps))
-	run.Set("rule", "trace = every identifier handed out by the real server (MutationID of merge/cleave/split-supervoxel responses, CleavedLabel, SplitSupervoxel/RemainSupervoxel, nextlabel ranges, version ids and instance ids) and every ingest of labels above everything present (mutating voxel write), in issue order, over a history with process restarts placed at 98..102 and 199..201 issued mutation ids (stride 100) and, in the crash traces, a process exit injected immediately before/after each persistence write of the counters (MUT, IDS keys; sampled data writes) followed by recovery and further allocation; in the label-counter crash traces a process exit before/after every write of the per-version max-label, repo-wide max-label and next-label keys and of the voxel block of an ingest (so between an acknowledged ingest and the persistence of its labels, and between persistMaxLabel and persistMaxRepoLabel), after which the driver reads the stored voxels, records the largest label actually present and allocates again (some allocations follow an acknowledged ingest without waiting for idle); each trace must be a behaviour of IdsTrace.tla (unique, strictly increasing, fresh w.r.t. labels present); DvidPersist.tla's Inv_C12_CountersAhead is model-checked with a crash anywhere. Label freshness during proofreading is additionally checked on every transition of C08's replay")
-	run.Assume = []string{"concurrent allocation is covered by C11's schedules", "repo ids are not observable through the API (covered by the model and the write-sequence conformance)"}
+	run.Set("rule", "trace = every identifier handed out by the real server (MutationID of merge/cleave/split-supervoxel responses, CleavedLabel, SplitSupervoxel/RemainSupervoxel, nextlabel ranges, version ids and instance ids) and every ingest of labels above everything present (mutating voxel write), in issue order, over a history with process restarts placed at 98..102 and 199..201 issued mutation ids (stride 100) and, in the crash traces, a process exit injected immediately before/after each persistence write of the counters (MUT, IDS keys; sampled data writes) followed by recovery and further allocation; in the label-counter crash traces a process exit before/after every write of the per-version max-label, repo-wide max-label and next-label keys and of the voxel block of an ingest (so between an acknowledged ingest and the persistence of its labels, and between persistMaxLabel and persistMaxRepoLabel), after which the driver reads the stored voxels, records the largest label actually present and allocates again (some allocations follow an acknowledged ingest without waiting for idle); each trace must be a behaviour of IdsTrace.tla (unique, strictly increasing, fresh w.r.t. labels present); DvidPersist.tla's Inv_C12_CountersAhead is model-checked with a crash anywhere. Label freshness during proofreading is additionally checked on every transition of C08's replay. Growth traces: (g1) body labels chosen by the client through POST mappings are observed in the mapped volume ('present' event) and followed by allocations, also across a restart; (g2) the label counter repositioned with POST set-nextlabel ('reposition' event: IdsTrace waives only 'greater than every label present', allocations still strictly increase from the chosen position) above and below the labels present, with allocations of single labels and ranges, an ingest of higher labels, a clean and a killed restart right after a single-label resp. a range allocation, and a process exit before / after the write of the next-label key; (g3) two repos on one server allocating in turns (mutation ids per repo, version and instance ids server-wide), each fast-forwarded with datastore NewMutationID to 3 ids before its stride write, then restarts (clean / SIGKILL) placed 2 and 1 ids before the write, right after the step in which the store-write trace shows the write of the mutation-id key, and one allocation later, followed by allocations in both repos; version ids of branches and of a merge version; (g4) instance ids with instance_id_gen = random across restarts")
+	run.Assume = []string{"concurrent allocation is covered by C11's schedules", "repo ids are not observable through the API (covered by the model and the write-sequence conformance)",
+		"after an administrator repositioned the label counter below labels that are present, collisions with those labels are the administrator's choice: only strict increase from the chosen position is required",
+		"min_mutation_id_start is not exercised (the node configuration has no field for it)"}
 	fmt.Printf("C12: tlc %d states; %d traces (%d identifier events, %d + %d crash points) validated against IdsTrace.tla in %.1fs; violations=%d\n",
 		pm.States, len(results), nEvents, len(cps), len(lcps), since(t0), run.Violations())
 	return run.Finish()
